@@ -2,6 +2,7 @@ package checks
 
 import (
 	"bytes"
+	"encoding/binary"
 	"fmt"
 	"reflect"
 	"time"
@@ -9,6 +10,7 @@ import (
 	"github.com/golang/protobuf/proto"
 	"github.com/openacid/errors"
 	"github.com/openacid/slim/array"
+	"github.com/openacid/slim/encode"
 	"verif/internal/h"
 )
 
@@ -303,6 +305,55 @@ func arrKinds() []arrKind {
 			func() (*array.Array, error) { return array.NewEmpty([4]byte{}) },
 			func(v uint64) interface{} { return mk4(v) }})
 	}
+	// the generic array with a PRESET element encoder (Array.EltEncoder is a
+	// public field, preset this way by slim itself for pre-0.5.10 leaves): a
+	// big-endian TypeEncoder over uint32 and int64, elements passed as a plain
+	// integer slice
+	{
+		preset := func(zero interface{}) *array.Array {
+			te, err := encode.NewTypeEncoderEndian(zero, binary.BigEndian)
+			if err != nil {
+				panic(err)
+			}
+			a := &array.Array{}
+			a.EltEncoder = te
+			return a
+		}
+		conv32 := func(vals []uint64) []uint32 {
+			r := make([]uint32, len(vals))
+			for i, v := range vals {
+				r[i] = uint32(v)
+			}
+			return r
+		}
+		ks = append(ks, arrKind{"U32be", 4, nil, nil,
+			func(idx []int32, vals []uint64) (*array.Array, error) {
+				a := preset(uint32(0))
+				if err := a.Init(idx, conv32(vals)); err != nil {
+					return nil, err
+				}
+				return a, nil
+			},
+			func() (*array.Array, error) { return preset(uint32(0)), nil },
+			func(v uint64) interface{} { return uint32(v) }})
+		conv64 := func(vals []uint64) []int64 {
+			r := make([]int64, len(vals))
+			for i, v := range vals {
+				r[i] = int64(v)
+			}
+			return r
+		}
+		ks = append(ks, arrKind{"I64be", 8, nil, nil,
+			func(idx []int32, vals []uint64) (*array.Array, error) {
+				a := preset(int64(0))
+				if err := a.Init(idx, conv64(vals)); err != nil {
+					return nil, err
+				}
+				return a, nil
+			},
+			func() (*array.Array, error) { return preset(int64(0)), nil },
+			func(v uint64) interface{} { return int64(v) }})
+	}
 	return ks
 }
 
@@ -361,6 +412,8 @@ func checkArr(w *h.Worker, k arrKind, a *arr, g *array.Array, ref map[int32]uint
 				wantB = append(refLE(uint64(uint32(want)), 4), refLE(uint64(uint16(want>>32)), 2)...)
 			case "arr4":
 				wantB = refLE(want, 4)
+			case "U32be", "I64be":
+				wantB = refBE(want, k.width)
 			}
 			if ok2 != present || (present && !bytes.Equal(bs, wantB)) {
 				return fmt.Sprintf("%s: generic GetBytes(%d) = (%x,%v), want (%x,%v)", stage, i, bs, ok2, wantB, present)
@@ -597,7 +650,7 @@ func c16Value(index int32, pattern int, width int) uint64 {
 
 func runC16(r *h.Run) {
 	thorough := r.Tier == "thorough"
-	r.Rule = "every subset of the 16-position index universe {0,1,2,31,62,63,64,65,127,128,129,255,256,300,511,512} (65536 sets: dense, sparse, empty 64-bit words, single, empty) and of a 14-position universe reaching 2^20-1; element types U16 U32 U64 I16 I32 I64, a fixed-size 8-byte struct, a 6-byte struct (encoded size not a power of two), and three unnamed element types (anonymous 12- and 6-byte structs, [4]byte) whose arrays coexist in the process; values f(index,pattern) over the lane alphabet (3 patterns in thorough, 1 in quick), plus all 2^16 values in one-element arrays of the 16-bit types; probes: every index of the bitmap span (second universe: every universe index +-1 and every touched word boundary); typed Get, generic Array.Get and Base.GetBytes against map[int32]T, on the fresh arrays and after proto.Marshal/Unmarshal of both the typed and the generic array into both the typed type and array.NewEmpty(zero); invalid: every index sequence of length <= 4 over a 6-position universe and element slices longer or shorter by 1..3 => ErrIndexNotAscending / ErrIndexLen and a nil array. A state is a distinct (kind, index set, pattern); non-trivial = at least 2 elements"
+	r.Rule = "every subset of the 16-position index universe {0,1,2,31,62,63,64,65,127,128,129,255,256,300,511,512} (65536 sets: dense, sparse, empty 64-bit words, single, empty) and of a 14-position universe reaching 2^20-1; element types U16 U32 U64 I16 I32 I64, a fixed-size 8-byte struct, a 6-byte struct (encoded size not a power of two), three unnamed element types (anonymous 12- and 6-byte structs, [4]byte) whose arrays coexist in the process, and the generic array with a preset big-endian TypeEncoder over uint32 / int64; values f(index,pattern) over the lane alphabet (3 patterns in thorough, 1 in quick), plus all 2^16 values in one-element arrays of the 16-bit types; probes: every index of the bitmap span (second universe: every universe index +-1 and every touched word boundary); typed Get, generic Array.Get and Base.GetBytes against map[int32]T, on the fresh arrays and after proto.Marshal/Unmarshal of both the typed and the generic array into both the typed type and array.NewEmpty(zero); invalid: every index sequence of length <= 4 over a 6-position universe and element slices longer or shorter by 1..3 => ErrIndexNotAscending / ErrIndexLen and a nil array. A state is a distinct (kind, index set, pattern); non-trivial = at least 2 elements"
 	r.Assumptions = []string{"(zero,false) is claimed within the bitmap span only; probing beyond the span is outside the statement"}
 	kinds := arrKinds()
 	patterns := 1
